@@ -243,7 +243,13 @@ pub fn run(ctx: &Ctx) -> i32 {
     }
     // ---------- CLI modes on a sample of the inputs (only in the checked run, it uses both rva builds itself)
     if ctx.checked_build && !ctx.rva_checked.as_os_str().is_empty() {
-        let sample: Vec<&(String, String)> = inputs.iter().filter(|(n, t)| t.len() < 30_000 && (n.starts_with("extreme") || true)).step_by(ctx.tier.pick(7, 5)).collect();
+        // every 7th (5th) input in one mode each, and the small structural extremes in every mode
+        let mut sample: Vec<&(String, String)> = inputs.iter().filter(|(_, t)| t.len() < 30_000).step_by(ctx.tier.pick(7, 5)).collect();
+        for x in inputs.iter().filter(|(n, _)| n.starts_with("extreme:") && n.ends_with(":1000")) {
+            for _ in 0..8 {
+                sample.push(x);
+            }
+        }
         let modes: [&[&str]; 8] = [&[], &["--compact"], &["--no-color"], &["--json"], &["--yaml"], &["--debug"], &["--all-files"], &["--no-output"]];
         let cacc = std::sync::Mutex::new(Acc::new());
         std::thread::scope(|s| {
